@@ -256,15 +256,16 @@ func (serviceCore *ServiceCore) Init() error {
 		serviceCore.NodeInfo.KeyPairs = append(serviceCore.NodeInfo.KeyPairs, keyPair)
 	}
 
-	// load clients
+	// load clients. a missing file only means that no client has been registered yet,
+	// it must not prevent loading of the access controls
 	err = serviceCore.loadClients()
-	if err != nil {
+	if err != nil && !os.IsNotExist(err) {
 		return err
 	}
 
 	// load acls
 	err = serviceCore.loadAcls()
-	if err != nil {
+	if err != nil && !os.IsNotExist(err) {
 		return err
 	}
 
